@@ -16,6 +16,7 @@ RULE = (
     "footer, Original Size smaller / larger than Current Size or zero, the Temporary feature bit) plus requests biased to block/buffer boundaries and the tail; an independent writer produces image + model; "
     "VHD(fh).read and VHD(fh).disk.read_sectors must equal the model. Non-trivial = a request crosses a boundary between "
     "blocks that are not physically adjacent, or reads the partial last block, or block size != 2 MiB, or legacy footer."
+    ' Dynamic header and BAT also placed at 4 GiB - 512, 4 GiB, 4 GiB + 512 and 1 TiB; images also opened through a minimal file object (incl. seek() returning None) or by a second reader on the same handle after the first was dropped.'
 )
 ASSUMPTIONS = [
     "dynamic block sizes are powers of two >= 4096: below that the sector-bitmap size (ceil vs floor of sectors/8) is "
